@@ -41,6 +41,16 @@ impl<T: PartialEq + Eq + Hash> AvailableValueMap<T> {
         self.map.insert(key, value);
     }
 
+    /// Remove the value of the given key, if it has one.
+    pub fn remove(&mut self, key: &T) {
+        self.map.remove(key);
+    }
+
+    /// Keep only the entries for which the predicate holds.
+    pub fn retain(&mut self, keep: impl FnMut(&T, &mut AvailableValue) -> bool) {
+        self.map.retain(keep);
+    }
+
     /// Check if the available value map is empty.
     #[must_use]
     pub fn is_empty(&self) -> bool {
